@@ -80,17 +80,31 @@ F1d == {Prog("F1d", <<S(Asg(op, d, r))>>) : d \in Dst, op \in RingOps, r \in Lea
 F1e == {Prog("F1e", <<S(Inc(pre, dd, d))>>) : pre \in BOOLEAN, dd \in {1, -1}, d \in Dst}
        \cup {Prog("F1e", <<S(Asg("=", x, Inc(pre, dd, d)))>>) : pre \in BOOLEAN, dd \in {1, -1}, d \in Dst \ {Var("X"), Var("s")},
                                                                    x \in {Var("b"), Var("s"), Var("X")}}
-\* F1f: relational and logical operators as values, ternary
-F1f == {Prog("F1f", <<S(Asg("=", d, Bin(op, l, r)))>>) : d \in {Var("a"), Var("X")}, op \in RelOps \cup {"&&", "||"}, l \in Leaf, r \in Leaf}
+\* F1f: relational and logical operators as values, ternary.
+\* Comparison operands are unsigned 8-bit objects and non-zero constants, or unsigned 16-bit scalars among
+\* themselves: signed, mixed-width and compare-with-zero shapes are known defect classes (KF-C01-cmp*),
+\* kept apart in F2z / F2s so that their failing shapes can be listed.
+CmpLeaf == U8 \cup Regs \cup ArrEl \cup TabEl \cup {Num(1), Num(200)}
+Cmp16 == {Var("s"), Var("t"), Num(300)}
+CmpPairs == (CmpLeaf \X CmpLeaf) \cup (Cmp16 \X Cmp16)
+F1f == {Prog("F1f", <<S(Asg("=", d, Bin(op, p[1], p[2])))>>) : d \in {Var("a"), Var("X")}, op \in RelOps, p \in CmpPairs}
+       \cup {Prog("F1f", <<S(Asg("=", d, Bin(op, l, r)))>>) : d \in {Var("a"), Var("X")}, op \in {"&&", "||"}, l \in Leaf8, r \in Leaf8}
        \cup {Prog("F1f", <<S(Asg("=", d, Cond(Bin(op, l, r), u, v)))>>) :
-               d \in {Var("a"), Var("s")}, op \in {"<", "==", ">="}, l \in {Var("a"), Var("X"), Var("s")}, r \in {Var("b"), Num(1), Num(200)},
-               u \in {Var("b"), Num(5), Var("s")}, v \in {Var("Y"), Num(9)}}
+               d \in {Var("a"), Var("Y")}, op \in {"<", "==", ">="}, l \in {Var("a"), Var("X"), Idx("arr", Var("X"))}, r \in {Var("b"), Num(1), Num(200)},
+               u \in {Var("b"), Num(5), Idx("arr", Var("Y"))}, v \in {Var("Y"), Num(9)}}
 \* F1g: plain copies / widening / narrowing
 F1g == {Prog("F1g", <<S(Asg("=", d, l))>>) : d \in Dst, l \in Leaf}
 
 \* F2: conditions
 ThenElse == <<<<Set("c", 1)>>, <<Set("c", 2)>>>>
-F2a == {Prog("F2a", <<If(Bin(op, l, r), ThenElse[1], ThenElse[2])>>) : op \in RelOps, l \in Leaf, r \in Leaf}
+F2a == {Prog("F2a", <<If(Bin(op, p[1], p[2]), ThenElse[1], ThenElse[2])>>) : op \in RelOps, p \in CmpPairs}
+\* F2z: comparisons with the constant 0; F2s: signed and mixed-width comparisons (known defect classes, see above)
+ZLeaf == U8 \cup Regs \cup ArrEl \cup {Var("s")}
+F2z == {Prog("F2z", <<If(Bin(op, l, Num(0)), ThenElse[1], ThenElse[2])>>) : op \in RelOps, l \in ZLeaf}
+       \cup {Prog("F2z", <<If(Bin(op, Num(0), l), ThenElse[1], ThenElse[2])>>) : op \in RelOps, l \in ZLeaf}
+SLeaf == {Var("sa"), Var("sb"), Var("ss"), Var("a"), Var("s"), Num(1), Num(200), Idx("sarr", Var("X"))}
+F2s == {Prog("F2s", <<If(Bin(op, l, r), ThenElse[1], ThenElse[2])>>) : op \in RelOps, l \in SLeaf, r \in SLeaf}
+          \ {Prog("F2s", <<If(Bin(op, l, r), ThenElse[1], ThenElse[2])>>) : op \in RelOps, l \in {Var("a"), Num(1), Num(200)}, r \in {Var("a"), Num(1), Num(200)}}
 F2b == {Prog("F2b", <<If(l, ThenElse[1], ThenElse[2])>>) : l \in Leaf}
        \cup {Prog("F2b", <<If(Un("!", l), ThenElse[1], ThenElse[2])>>) : l \in Leaf}
        \cup {Prog("F2b", <<If(l, ThenElse[1], <<>>)>>) : l \in Leaf}
@@ -154,13 +168,13 @@ Tests == {If(Var("a"), ThenElse[1], ThenElse[2]), If(Bin("==", Var("X"), Num(0))
 F7a == {Prog("F7a", <<p, q>>) : p \in Pool, q \in Tests}
 F7b == {Prog("F7b", <<p, q, r>>) : p \in Pool, q \in Pool, r \in Tests}
 
-AllFams == F1a \cup F1b \cup F1c \cup F1d \cup F1e \cup F1f \cup F1g \cup F2a \cup F2b \cup F2c
+AllFams == F1a \cup F1b \cup F1c \cup F1d \cup F1e \cup F1f \cup F1g \cup F2a \cup F2b \cup F2c \cup F2z \cup F2s
            \cup F3a \cup F3b \cup F3c \cup F4 \cup F5a \cup F5b \cup F7a \cup F7b
 Family ==
   CASE Fam = "ALL" -> AllFams
     [] Fam = "F1a" -> F1a [] Fam = "F1b" -> F1b [] Fam = "F1c" -> F1c [] Fam = "F1d" -> F1d
     [] Fam = "F1e" -> F1e [] Fam = "F1f" -> F1f [] Fam = "F1g" -> F1g
-    [] Fam = "F2a" -> F2a [] Fam = "F2b" -> F2b [] Fam = "F2c" -> F2c
+    [] Fam = "F2a" -> F2a [] Fam = "F2b" -> F2b [] Fam = "F2c" -> F2c [] Fam = "F2z" -> F2z [] Fam = "F2s" -> F2s
     [] Fam = "F3a" -> F3a [] Fam = "F3b" -> F3b [] Fam = "F3c" -> F3c
     [] Fam = "F4" -> F4 [] Fam = "F5a" -> F5a [] Fam = "F5b" -> F5b
     [] Fam = "F7a" -> F7a [] Fam = "F7b" -> F7b
